@@ -1127,6 +1127,138 @@ Proof.
   apply (centred_core x c k Hl Hk).
 Qed.
 
+(* ------------------------------------------------------------------------------------------ *)
+(* centred transform, EVERY length: fftshift . dft . ifftshift  (and the inverse)               *)
+(* ------------------------------------------------------------------------------------------ *)
+
+(* a rotation of a list, read by index *)
+Lemma nth_rot {A} (l : list A) s k d : (s <= length l)%nat -> (k < length l)%nat ->
+  nth k (skipn s l ++ firstn s l) d = nth ((k + s) mod length l) l d.
+Proof.
+  intros Hs Hk. destruct (Nat.lt_ge_cases k (length l - s)) as [Hlt|Hge].
+  - rewrite app_nth1 by (rewrite skipn_length; lia). rewrite nth_skipn'.
+    rewrite Nat.mod_small by lia. f_equal. lia.
+  - rewrite app_nth2 by (rewrite skipn_length; lia). rewrite skipn_length.
+    rewrite nth_firstn' by lia. f_equal.
+    replace (k + s)%nat with ((k - (length l - s)) + 1 * length l)%nat by lia.
+    rewrite Nat.mod_add by lia. rewrite Nat.mod_small by lia. reflexivity.
+Qed.
+
+Lemma nth_fftshift {A} (l : list A) k d : (k < length l)%nat ->
+  nth k (fftshift l) d = nth ((k + (length l - length l / 2)) mod length l) l d.
+Proof. intros Hk. unfold fftshift. apply nth_rot; [lia|exact Hk]. Qed.
+
+Lemma nth_ifftshift {A} (l : list A) k d : (k < length l)%nat ->
+  nth k (ifftshift l) d = nth ((k + length l / 2) mod length l) l d.
+Proof. intros Hk. unfold ifftshift. apply nth_rot; [apply half_le|exact Hk]. Qed.
+
+(* a sum over Z/N does not depend on where it starts *)
+Lemma bigsum_rot f a s :
+  bigsum (fun n => f ((n + s) mod (a + s))%nat) (a + s) = bigsum f (a + s).
+Proof.
+  transitivity (bigsum f (s + a)); [|f_equal; lia].
+  rewrite (bigsum_split f s a).
+  rewrite (bigsum_split (fun n => f ((n + s) mod (a + s))%nat) a s).
+  rewrite (bigsum_ext (fun n => f ((n + s) mod (a + s))%nat) (fun i => f (s + i)%nat) a).
+  2:{ intros i Hi. rewrite Nat.mod_small by lia. f_equal. lia. }
+  rewrite (bigsum_ext (fun i => (fun n => f ((n + s) mod (a + s))%nat) (a + i)%nat) f s).
+  2:{ intros i Hi. cbv beta. replace (a + i + s)%nat with (i + 1 * (a + s))%nat by lia.
+      rewrite Nat.mod_add by lia. rewrite Nat.mod_small by lia. reflexivity. }
+  generalize (bigsum f s) (bigsum (fun i => f (s + i)%nat) a). cring.
+Qed.
+
+Lemma bigsum_cyclic_shift f N s :
+  bigsum (fun n => f ((n + s) mod N)%nat) N = bigsum f N.
+Proof.
+  destruct (Nat.eq_dec N 0) as [->|HN]; [reflexivity|].
+  rewrite (bigsum_ext _ (fun n => f ((n + s mod N) mod N)%nat))
+    by (intros; rewrite Nat.add_mod_idemp_r by exact HN; reflexivity).
+  pose proof (Nat.mod_upper_bound s N HN) as Hb.
+  set (t := (s mod N)%nat) in *. clearbody t.
+  replace N with ((N - t) + t)%nat by lia. apply bigsum_rot.
+Qed.
+
+(* the exponent of the plain transform at the rotated indices is, modulo N, the centred exponent *)
+Lemma centred_kernel (sg : Z) N n k : (n < N)%nat -> (k < N)%nat ->
+  E (IZR sg * (2 * PI * INR (n * ((k + (N - N / 2)) mod N)) / INR N))
+  = E (IZR sg * (2 * PI) * (INR ((n + N / 2) mod N) - INR (N / 2)) * (INR k - INR (N / 2)) / INR N).
+Proof.
+  intros Hn Hk. set (h := (N / 2)%nat). assert (Hh : (h <= N)%nat) by apply half_le.
+  assert (HN0 : N <> 0%nat) by lia.
+  assert (HNr : 0 < INR N) by (apply lt_0_INR; lia).
+  pose proof (Nat.div_mod (n + h) N HN0) as D1.
+  pose proof (Nat.div_mod (k + (N - h)) N HN0) as D2.
+  set (q1 := ((n + h) / N)%nat) in *. set (m := ((n + h) mod N)%nat) in *.
+  set (q2 := ((k + (N - h)) / N)%nat) in *. set (k' := ((k + (N - h)) mod N)%nat) in *.
+  apply (f_equal INR) in D1. apply (f_equal INR) in D2.
+  rewrite !plus_INR, !mult_INR in D1, D2. rewrite minus_INR in D2 by exact Hh.
+  rewrite mult_INR.
+  set (z := (sg * (Z.of_nat n * (1 - Z.of_nat q2) + Z.of_nat q1 * (Z.of_nat k - Z.of_nat h)))%Z).
+  rewrite <- (E_period_Z (IZR sg * (2 * PI) * (INR m - INR h) * (INR k - INR h) / INR N) z).
+  f_equal. unfold z. rewrite mult_IZR, plus_IZR, !mult_IZR, !minus_IZR, <- !INR_IZR_INZ.
+  assert (Em : INR m = INR n + INR h - INR N * INR q1) by lra.
+  assert (Ek : INR k' = INR k + (INR N - INR h) - INR N * INR q2) by lra.
+  rewrite Em, Ek. field. lra.
+Qed.
+
+Lemma centred_sum (sg : Z) (x : list RC) N k : length x = N -> (k < N)%nat ->
+  bigsum (fun n => cmul O (nth n (ifftshift x) (czero O))
+            (E (IZR sg * (2 * PI * INR (n * ((k + (N - N / 2)) mod N)) / INR N)))) N
+  = bigsum (fun n => cmul O (nth n x (czero O))
+            (E (IZR sg * (2 * PI) * (INR n - INR (N / 2)) * (INR k - INR (N / 2)) / INR N))) N.
+Proof.
+  intros Hl Hk.
+  rewrite <- (bigsum_cyclic_shift (fun n => cmul O (nth n x (czero O))
+            (E (IZR sg * (2 * PI) * (INR n - INR (N / 2)) * (INR k - INR (N / 2)) / INR N))) N (N / 2)).
+  apply bigsum_ext. intros n Hn. cbv beta.
+  rewrite (@nth_ifftshift RC x n (czero O)) by (rewrite Hl; exact Hn). rewrite Hl. f_equal.
+  apply centred_kernel; assumption.
+Qed.
+
+(* entry k of fftshift (dft (ifftshift x)): origin on sample N/2 (floor) in both domains *)
+Theorem centred_dft_all : forall (x : list RC) N k,
+  length x = N -> (k < N)%nat ->
+  nth k (fftshift (dft O (ifftshift x))) (czero O)
+  = bigsum (fun n => cmul O (nth n x (czero O))
+       (cis O (- (2 * PI) * (INR n - INR (N / 2)) * (INR k - INR (N / 2)) / INR N))) N.
+Proof.
+  intros x N k Hl Hk.
+  assert (HN0 : N <> 0%nat) by lia.
+  rewrite nth_fftshift by (rewrite dft_length, ifftshift_length; ncx; lia).
+  rewrite dft_length, ifftshift_length; ncx; rewrite Hl.
+  pose proof (Nat.mod_upper_bound (k + (N - N / 2)) N HN0) as Hk'.
+  rewrite dft_ktr, nth_ktr by (rewrite ifftshift_length; ncx; lia).
+  rewrite ifftshift_length; ncx; rewrite Hl.
+  etransitivity; [|etransitivity; [exact (centred_sum (-1) x N k Hl Hk)|]].
+  - apply bigsum_ext. intros n _. f_equal. unfold Kdft, W. f_equal. unfold Rdiv. ring.
+  - apply bigsum_ext. intros n _. f_equal. change (cis O) with E. f_equal. unfold Rdiv. ring.
+Qed.
+
+(* ... and of fftshift (idft (ifftshift X)): the same with the conjugate kernel and 1/N *)
+Theorem centred_idft_all : forall (X : list RC) N k,
+  length X = N -> (k < N)%nat ->
+  nth k (fftshift (idft O (ifftshift X))) (czero O)
+  = cscale O (1 / INR N) (bigsum (fun n => cmul O (nth n X (czero O))
+       (cis O (2 * PI * (INR n - INR (N / 2)) * (INR k - INR (N / 2)) / INR N))) N).
+Proof.
+  intros X N k Hl Hk.
+  assert (HN0 : N <> 0%nat) by lia.
+  rewrite nth_fftshift by (rewrite idft_length, ifftshift_length; ncx; lia).
+  rewrite idft_length, ifftshift_length; ncx; rewrite Hl.
+  pose proof (Nat.mod_upper_bound (k + (N - N / 2)) N HN0) as Hk'.
+  rewrite idft_ktr, nth_ktr by (rewrite ifftshift_length; ncx; lia).
+  rewrite ifftshift_length; ncx; rewrite Hl. rewrite <- bigsum_scale.
+  etransitivity; [|etransitivity;
+    [exact (f_equal (cscale O (1 / INR N)) (centred_sum 1 X N k Hl Hk))|]];
+    rewrite <- ?bigsum_scale.
+  - apply bigsum_ext. intros n _. unfold Kidft, W. rewrite <- E_neg.
+    replace (- - (2 * PI * INR (n * ((k + (N - N / 2)) mod N)) / INR N))
+      with (1 * (2 * PI * INR (n * ((k + (N - N / 2)) mod N)) / INR N)) by ring.
+    cring.
+  - apply bigsum_ext. intros n _. f_equal. f_equal. change (cis O) with E. f_equal.
+    unfold Rdiv. ring.
+Qed.
+
 End DftR.
 
 Print Assumptions idft_dft.
